@@ -431,6 +431,8 @@ class Interp:
                 env[n.name] = ClassV(rel, n)
             elif isinstance(n, ast.ImportFrom):
                 target = self._resolve_import(pkg, n.module, n.level)
+                if target is not None and not self.sources.has(target) and self.sources.has(target[:-3] + "/__init__.py"):
+                    target = target[:-3] + "/__init__.py"          # `from . import NAME` / `from a5.core import NAME`: the package module
                 for a in n.names:
                     nm = a.asname or a.name
                     if target is None:
@@ -568,6 +570,10 @@ class Interp:
         if outer is not None:
             env.update(outer)          # variables of the enclosing function, as they are now
         params = fn.args.args + fn.args.kwonlyargs
+        opaque_ = core.opaque_decorators(fn)
+        if opaque_:
+            raise _Unmodelled(f"function {name} is wrapped by {', '.join(opaque_)} at {core.loc(rel, fn)}: what the wrapper does with arguments "
+                              f"and result is not modelled")
         if any(isinstance(n_, ast.Nonlocal) for n_ in ast.walk(fn)) or fn.args.vararg or fn.args.kwarg:
             raise _Unmodelled(f"function {name} with nonlocal / *args / **kwargs at {core.loc(rel, fn)}")
         kw_defaults = {a.arg: d for a, d in zip(fn.args.kwonlyargs, fn.args.kw_defaults) if d is not None}
